@@ -441,7 +441,7 @@ class C03(Check):
                 idx[id(te)] = i
                 ents.append(te)
                 ft.add_entry(te) if (cv + i) % 2 else ft.add_entry(entry=te)
-            order = [idx[id(te)] for te in ft.entries]
+            order = [idx.get(id(te), "foreign-object") for te in ft.entries]
             eff = [te.effective_priority for te in ft.entries]
             exact = [1 if te.match.is_exact else 0 for te in ents]
             twin = None
@@ -458,9 +458,9 @@ class C03(Check):
                 ph, wf = self.phdr_of(e)
                 phs.append(ph); wfs.append(wf)
                 if twin is not None:
-                    tb = ftb.entry_for_packet(e, fr["port"]); twin.append(None if tb is None else idxb[id(tb)])
+                    tb = ftb.entry_for_packet(e, fr["port"]); twin.append(None if tb is None else idxb.get(id(tb), "foreign-object"))
                 te = self._lookup(ft, e, fr["port"], cv + n)
-                lookups.append(None if te is None else idx[id(te)])
+                lookups.append(None if te is None else idx.get(id(te), "foreign-object"))
                 if (cv + n) % 4 == 0:
                     for x in ents[:3]: self._poke(x.match)
                 if sw:
@@ -481,7 +481,7 @@ class C03(Check):
                         te = self.TableEntry(priority=prio, match=m, actions=[], now=0); ix[id(te)] = i
                         ft2.add_entry(te)
                     te = ft2.entry_for_packet(self.parse(fr["frame"]), fr["port"])
-                    return None if te is None else ix[id(te)]
+                    return None if te is None else ix.get(id(te), "foreign-object")
                 fresh = [alone(case["entries"], fr) for fr in case["frames"]]
                 if twin is not None:
                     tw = [[p, w] for p, (_, w) in zip([p for p, _ in case["entries"]][::-1], case["entries"])]
@@ -503,7 +503,7 @@ class C03(Check):
             cv = self._cv(case)
             ft = self.FlowTable()
             ents, idx, trace, looks, pk = {}, {}, [], [], {}
-            ids = lambda: [idx[id(te)] for te in ft.entries]
+            ids = lambda: [idx.get(id(te), "foreign-object") for te in ft.entries]
             for n, op in enumerate(case["ops"]):
                 raised = 0
                 try:
@@ -527,17 +527,19 @@ class C03(Check):
                         if op[1] not in pk: pk[op[1]] = self.parse(op[1])
                         e = pk[op[1]]
                         ph, wf = self.phdr_of(e)
-                        te = self._lookup(ft, e, op[2], cv + n)
                         pm = self.of.ofp_match.from_packet(self.parse(op[1]), op[2], spec_frags=True)
-                        present = ids()
+                        present = [i for i in ids() if i in ents]
                         looks.append({"phdr": ph, "wf": wf, "present": present,
                                       "codematch": {str(i): 1 if ents[i].match.matches_with_wildcards(pm, consider_other_wildcards=False) else 0 for i in present}})
-                        trace.append(["l", None if te is None else idx[id(te)]])
+                        te = self._lookup(ft, e, op[2], cv + n)
+                        trace.append(["l", None if te is None else idx.get(id(te), "foreign-object")])
                         continue
                     else: raise ValueError(op[0])
-                except (ValueError, IndexError) as ex:
-                    if op[0] not in ("add", "remove"): raise
-                    raised = 1
+                except Exception as ex:
+                    # `remove_entry` of an object that is not in the table raises ValueError (1); anything else a table call raises is reported by name
+                    raised = 1 if (op[0] == "remove" and isinstance(ex, ValueError)) else type(ex).__name__
+                    if op[0] == "lookup":
+                        trace.append(["l", "raised " + type(ex).__name__]); continue
                 trace.append(["t", raised, ids()])
             return {"trace": trace, "looks": looks, "lookups": [t[1] for t in trace if t[0] == "l"]}
         raise ValueError(k)
@@ -682,6 +684,9 @@ class C03(Check):
                 if wf < 2: continue
                 if obs["rx"] is not None and obs["rx"][fi] != got:
                     return "lookup:frame %d rx_packet used entry %s, entry_for_packet %s" % (fi, obs["rx"][fi], got)
+                if obs.get("twin") is not None and obs["twin"][fi] != obs["twin_fresh"][fi]:
+                    return ("lookup:frame %d on a second table (same matches, priorities reversed) returned entry %s, alone it returns %s "
+                            "why=depends-on-another-table" % (fi, obs["twin"][fi], obs["twin_fresh"][fi]))
                 v = self._lookup_verdict(flows, got, ph, fr["port"], lambda i: obs["codematch"][fi][i], "frame %d" % fi)
                 if v:
                     # lookup is a function of (table, frame): the same frame on a fresh copy of the table is the reference
@@ -703,7 +708,46 @@ class C03(Check):
             return None
         if k == "tableops":
             # the property on a history: each lookup answers with the best matching flow among those the table holds at that moment
-            flows = {op[1]: (op[2], unpack_rec(bytes.fromhex(op[3]))) for op in case["ops"] if op[0] == "add"}
+            wire_of = {}
+            for op in case["ops"]:
+                if op[0] == "add": wire_of[op[1]] = wire_of[int(op[3][1:])] if op[3].startswith("@") else op[3]
+            flows = {op[1]: (op[2], unpack_rec(bytes.fromhex(wire_of[op[1]]))) for op in case["ops"] if op[0] == "add"}
+            # what the table holds after each call (the contract of the FlowTable API; what a non-strict / strict remove_matching_entries
+            # selects is C04's subject: there only "nothing appears, nothing is reordered" is demanded)
+            timers = {op[1]: (op[4], op[5], op[6]) for op in case["ops"] if op[0] == "add"}
+            prev = []
+            for oi, (op, t) in enumerate(zip(case["ops"], obs["trace"])):
+                if t[0] != "t": continue
+                raised, now_ids = t[1], t[2]
+                if op[0] == "add":
+                    want, wr = set(prev) | {op[1]}, 0
+                    ok = set(now_ids) == want and [x for x in now_ids if x != op[1]] == prev and raised == wr
+                elif op[0] == "remove":
+                    want, wr = (set(prev) - {op[1]}, 0) if op[1] in prev else (set(prev), 1)
+                    ok = now_ids == [x for x in prev if x in want] and raised == wr
+                elif op[0] == "expire":
+                    dead = {i for i in prev if (timers[i][0] > 0 and op[1] - timers[i][2] > timers[i][0] * 1000) or (timers[i][1] > 0 and op[1] - timers[i][2] > timers[i][1] * 1000)}
+                    want = set(prev) - dead
+                    ok = now_ids == [x for x in prev if x in want] and raised == 0
+                else:
+                    # remove_matching_entries: nothing appears or moves; and the cases every reading agrees on — strict with the very bytes and
+                    # priority of an installed flow removes it, strict at a priority no installed flow has removes nothing, a non-strict
+                    # match-all empties the table
+                    want = None
+                    ok = now_ids == [x for x in prev if x in set(now_ids)] and raised == 0
+                    rr = unpack_rec(bytes.fromhex(op[1]))
+                    if ok and op[3]:
+                        same = [i for i in prev if wire_of[i] == op[1] and flows[i][0] == op[2]]
+                        if any(i in now_ids for i in same): ok, want = False, set(prev) - set(same)
+                        elif not any(flows[i][0] == op[2] for i in prev) and now_ids != prev: ok, want = False, set(prev)
+                    elif ok and all(wild(rr, f) for f in FLAG_FIELDS) and ign_src(rr) == 32 and ign_dst(rr) == 32:
+                        # (entries that set undefined wildcard bits 22..31 the request does not set are C04's business: the code compares those bits)
+                        stay = {i for i in prev if (flows[i][1][W] >> 22) & ~(rr[W] >> 22)}
+                        if not set(now_ids) <= stay: ok, want = False, stay
+                if not ok:
+                    return "table:op %d %s left %s%s, the table held %s%s why=contents-after-%s" % (
+                        oi, op[0], now_ids, " (raised)" if raised else "", prev, "" if want is None else ", expected the entries %s" % sorted(want), op[0])
+                prev = now_ids
             looks = iter(obs["looks"])
             for oi, op in enumerate(case["ops"]):
                 if op[0] != "lookup": continue
@@ -718,6 +762,8 @@ class C03(Check):
 
     def _lookup_verdict(self, flows, got, ph, port, codematch, where):
         """flows: id -> (priority, transmitted match) of the entries in the table; got: id the code returned or None"""
+        if isinstance(got, str):
+            return "lookup:%s answered with %s why=not-an-entry-of-this-table" % (where, got)
         h = spec_headers(ph, port)
         S = [i for i, (p, r) in flows.items() if spec_match(r, h)]
         rank = lambda i: spec_rank_sig(*flows[i])
@@ -751,6 +797,7 @@ class C03(Check):
             if l is not None and l[0] == 0: return "extract:snap-not-recognised"
             return "extract:" + name
         if head == "selfflow": return "selfflow:miss"
+        if head == "table": return "table:" + failure.rsplit("why=", 1)[1]
         why = failure.rsplit("why=", 1)[1] if "why=" in failure else failure.split(" ", 1)[-1][:40]
         return "%s:%s" % (head, why)
 
@@ -772,7 +819,8 @@ class C03(Check):
         if k == "tableops":
             for i in range(len(case["ops"])):
                 op = case["ops"][i]
-                if op[0] == "add" and any(o[0] == "remove" and o[1] == op[1] for o in case["ops"]): continue   # keep ids that are referred to
+                if op[0] == "add" and any((o[0] == "remove" and o[1] == op[1]) or (o[0] == "add" and o[3] == "@%d" % op[1]) for o in case["ops"]):
+                    continue                                                                    # keep ids that are referred to
                 c = dict(case); c["ops"] = case["ops"][:i] + case["ops"][i + 1:]
                 if any(o[0] == "lookup" for o in c["ops"]): yield c
         if k == "table":
@@ -800,7 +848,7 @@ class C03(Check):
         mac = lambda: Eth(bytes([rng.choice([0, 2, 0x12]), 0, 0, 0, rng.randint(0, 2), rng.randint(1, 4)]))
         ipa = lambda: IP("%d.%d.%d.%d" % (rng.choice([10, 10, 192, 172]), rng.choice([0, 1, 9, 168]), rng.choice([0, 1, 9, 255]), rng.randint(1, 4)))
         tosv = lambda: rng.choice([0, 0, 0x10, 0xb8, 0x20]) | (0 if clean else rng.choice([1, 2, 3]))
-        port = lambda: rng.choice([0, 1, 53, 80, 443, 1000, 65535, rng.randint(0, 65535)])
+        port = lambda: rng.choice([0, 1, 53, 80, 255, 256, 443, 1000, 32767, 32768, 65535, rng.randint(0, 65535)])
         def l4(proto):
             if proto == 6: t = P.tcp(srcport=port(), dstport=port(), off=5, win=1); t.payload = b"xy"; return t
             if proto == 17: u = P.udp(srcport=port(), dstport=port()); u.payload = b"abcd"; return u      # even lengths only: packet_utils.checksum fails on odd data (D12, C14)
@@ -946,6 +994,8 @@ class C03(Check):
             cases.append(self.table_case(rng, frames, n=rng.choice([1, 5, 12, 40]), via_switch=(i % 2 == 0)))
         cases += self.table_witnesses()
         cases += list(self.lookup_seq_cases(rng))
+        cases += self.sandwich_cases()
+        cases += self.sweep_pairs(rng)
         for i in range(8):
             cases.append(self.tableops_case(rng, frames, nops=[4, 10, 25, 60][i % 4]))
         for fr in frames:
@@ -1115,6 +1165,12 @@ class C03(Check):
         "other": {"src": 0x000000000011, "dst": 0x000000000022, "vlan": None, "l3": ["other", 0x88b5]},
         "vlan_udp": {"src": 0x000000000011, "dst": 0x000000000022, "vlan": [10, 0], "l3": ["ip", 0x0a000001, 0x0a000002, 17, 0, 0, 4000, 5060]},
         "vlan_arp": {"src": 0x000000000011, "dst": 0xffffffffffff, "vlan": [10, 5], "l3": ["arp", 2, 0x0a000001, 0x0a000002]},
+        # rare values at every position: zeros (falsy), maxima, signed/unsigned boundaries
+        "zero_udp": {"src": 0x000000000001, "dst": 0x000000000002, "vlan": [0, 0], "l3": ["ip", 0, 0, 17, 0, 0, 0, 0]},
+        "zero_icmp": {"src": 0x000000000001, "dst": 0x000000000002, "vlan": None, "l3": ["ip", 1, 0, 1, 0, 0, 0, 0]},
+        "zero_arp": {"src": 0x000000000001, "dst": 0x000000000002, "vlan": None, "l3": ["arp", 0, 0, 0]},
+        "max_udp": {"src": 0xfefffffffffe, "dst": 0xfffffffffffe, "vlan": [4094, 6], "l3": ["ip", 0xfffffffe, 0xfffffffe, 17, 0xf8, 0, 65534, 65534]},
+        "mid_tcp": {"src": 0x7fffffffffff, "dst": 0x800000000000, "vlan": [2047, 3], "l3": ["ip", 0x7fffffff, 0x80000000, 6, 0x7c, 0, 32767, 32768]},
         "frag_udp": {"src": 0x000000000011, "dst": 0x000000000022, "vlan": None, "l3": ["ip", 0x0a000001, 0x0a000002, 17, 0, 2, 4000, 5060]},
     }
 
@@ -1181,7 +1237,10 @@ class C03(Check):
             d = self.SEQ_BASES[bname]
             for field in self.SEQ_FIELDS:
                 port = 1 + (len(bname) + self.SEQ_FIELDS.index(field)) % 3
-                if field == IN_PORT: pairs = [((d, port), (d, port % 3 + 1))]
+                if bname.startswith("zero"): port = 0
+                elif bname.startswith("max"): port = 0xfffe
+                elif bname.startswith("mid"): port = 0x7fff
+                if field == IN_PORT: pairs = [((d, port), (d, {0: 1, 0xfffe: 0xffff, 0x7fff: 0x8000}.get(port, port % 3 + 1)))]
                 else: pairs = [((d, port), (v, port)) for v in self.seq_variants(d, field, rng)[:per + 1]]
                 for (da, pa), (db, pb) in pairs:
                     fa, fb = self.build_frame(da), self.build_frame(db)
@@ -1197,8 +1256,79 @@ class C03(Check):
                     A, B = {"frame": fa, "port": pa}, {"frame": fb, "port": pb}
                     for order in ([A, B], [B, A], [A, B, A], [B, B, A, B]):
                         c = {"kind": "table", "entries": ents, "frames": order, "seq": True, "tag": "seq %s %s" % (bname, field if field == "frag" else F[field])}
-                        if rng.random() < 0.15: c["via_switch"] = True
+                        if pa in (1, 2, 3, 4) and pb in (1, 2, 3, 4) and rng.random() < 0.15: c["via_switch"] = True
+                        elif rng.random() < 0.3: c["twin"] = True
                         yield c
+
+    def sandwich_cases(self):
+        """lookup F / one table operation that must change the answer for F / lookup F again — for every kind of operation — and the sweep
+        shapes: six entries that all match F, every subset of them expiring in ONE remove_expired_entries call (adjacent victims, first,
+        last, all), idle and hard expiring in the same sweep, then a lookup"""
+        out = []
+        for bname in ("tcp", "arp", "vlan_udp"):
+            d = self.SEQ_BASES[bname]; fr = self.build_frame(d); port = 2
+            ph, wf, h = self.headers_of(fr, port)
+            low = pack_rec(self.only_field_rec(h, [IN_PORT])).hex()
+            high = pack_rec(self.only_field_rec(h, [DL_SRC, DL_TYPE])).hex()
+            broad = pack_rec(self.only_field_rec(h, [])).hex()
+            L = ["lookup", fr, port]
+            seqs = {
+                "add-higher": [["add", 0, 10, low, 0, 0, 1000], L, ["add", 1, 20, high, 0, 0, 1000], L],
+                "add-lower": [["add", 0, 10, low, 0, 0, 1000], L, ["add", 1, 5, high, 0, 0, 1000], L],
+                "add-equal": [["add", 0, 10, low, 0, 0, 1000], L, ["add", 1, 10, high, 0, 0, 1000], L, ["add", 2, 10, "@0", 0, 0, 1000], L],
+                "remove-hit": [["add", 0, 10, low, 0, 0, 1000], ["add", 1, 20, high, 0, 0, 1000], L, ["remove", 1], L, ["remove", 1], L, ["remove", 0], L],
+                "rm-strict": [["add", 0, 10, low, 0, 0, 1000], ["add", 1, 20, high, 0, 0, 1000], L, ["rm_match", high, 19, True], L, ["rm_match", high, 20, True], L],
+                "rm-broad": [["add", 0, 10, low, 0, 0, 1000], ["add", 1, 20, high, 0, 0, 1000], L, ["rm_match", broad, 0, False], L],
+                "expire-idle": [["add", 0, 10, low, 0, 0, 1000], ["add", 1, 20, high, 1, 0, 1000], L, ["expire", 2000], L, ["expire", 2125], L],
+                "expire-hard": [["add", 0, 10, low, 0, 0, 1000], ["add", 1, 20, high, 0, 2, 1000], L, ["expire", 3000], L, ["expire", 3125], L],
+                "expire-both": [["add", 0, 10, low, 1, 1, 1000], ["add", 1, 20, high, 5, 1, 1000], ["add", 2, 30, "@1", 1, 5, 1000], L, ["expire", 2125], L],
+                "alias-remove": [["add", 0, 20, high, 0, 0, 1000], ["add", 1, 10, "@0", 0, 0, 1000], L, ["remove", 0], L, ["remove", 1], L],
+            }
+            for name, ops in seqs.items():
+                out.append({"kind": "tableops", "ops": ops, "tag": "sandwich %s %s" % (bname, name)})
+            # sweep shapes
+            prios = [50, 40, 40, 30, 20, 20]
+            for mask in range(64):
+                ops = []
+                for i in range(6):
+                    w = [low, high, broad][i % 3]
+                    ops.append(["add", i, prios[i], w, 1 if (mask >> i & 1) and i % 2 == 0 else 0, 2 if (mask >> i & 1) and i % 2 else 0, 1000])
+                ops += [L, ["expire", 3125], L]
+                out.append({"kind": "tableops", "ops": ops, "tag": "sweep %s %d" % (bname, mask)})
+        return out
+
+    def sweep_pairs(self, rng):
+        """every IP protocol number, ICMP types/codes, EtherTypes around the 802.3 cutoff and around the tags, ARP opcodes — a frame each,
+        against matches on that very field (exact, off by one, wildcarded)"""
+        def case(d, fields, port=1):
+            try:
+                fr = self.build_frame(d); self.parse(fr)
+            except Exception:
+                return []
+            ph, wf, h = self.headers_of(fr, port)
+            recs = []
+            for f in fields:
+                r = self.only_field_rec(h, [f]); recs.append(r)
+                r2 = list(r); r2[f] = (r2[f] + 1) & FIELD_MAX[f]; recs.append(r2)
+                r3 = list(r); r3[f] = (r3[f] - 1) & FIELD_MAX[f]; recs.append(r3)
+            recs.append(self.only_field_rec(h, []))
+            return list(self.batches(fr, port, recs, ph))
+        out = []
+        base = self.SEQ_BASES
+        for proto in range(256):
+            d = copy.deepcopy(base["udp"]); d["l3"][3] = proto; d["l3"][4] = 0
+            if proto == 1: d["l3"][6], d["l3"][7] = 8, 0
+            out += case(d, [PROTO, TP_SRC] if proto in (1, 6, 17) else [PROTO])
+        for t in list(range(0, 256, 15)) + [255]:
+            d = copy.deepcopy(base["icmp"]); d["l3"][6], d["l3"][7] = t, 255 - t
+            out += case(d, [TP_SRC, TP_DST])
+        for et in (0x05dc, 0x05ff, 0x0600, 0x0601, 0x07ff, 0x0801, 0x0805, 0x0807, 0x8101, 0x88b5, 0xfffe, 0xffff):
+            d = copy.deepcopy(base["other"]); d["l3"][1] = et
+            out += case(d, [DL_TYPE])
+        for op in (0, 1, 2, 3, 254, 255, 256, 257, 0x0100 + 2, 0x7fff, 0x8000, 0xffff):
+            d = copy.deepcopy(base["arp"]); d["l3"][1] = op
+            out += case(d, [PROTO, NW_SRC])
+        return out
 
     def tableops_case(self, rng, pool, nops):
         """a history on one FlowTable: adds (clustered priorities, many equal: the insertion position among equals is observable),
@@ -1212,7 +1342,7 @@ class C03(Check):
                 ph, wf, h = self.headers_of(fr, port)
                 if self.trigger([0] * 13, ph) is None: break
             frames.append((fr, port, ph, h))
-        prios = [rng.choice([0, 1, 100, 0x8000, 0xffff]) for _ in range(2)]
+        prios = [rng.choice([0, 1, 100, 0x7fff, 0x8000, 0xffff]) for _ in range(2)]
         def flow():
             while True:
                 fr, port, ph, h = rng.choice(frames)
@@ -1224,13 +1354,19 @@ class C03(Check):
                     if spec_exact_sig(r) and not (r[DL_TYPE] == 0x0800 and r[PROTO] in (1, 6, 17) and spec_exact(r)): continue
                 if any(self.trigger(r, ph2) is not None for _, _, ph2, _ in frames): continue
                 return r
-        ops, now, nid, installed, everadded = [], 1000, 0, {}, []
+        ops, now, nid, installed, everadded, allrecs = [], 1000, 0, {}, [], {}
         while len(ops) < nops:
             x = rng.random()
             if x < 0.5 or not installed:
                 if len(installed) >= 40: continue
-                r = flow(); p = rng.choice(prios) if rng.random() < 0.85 else rng.randint(0, 0xffff)
-                ops.append(["add", nid, p, pack_rec(r).hex(), rng.choice([0, 0, 1, 5]), rng.choice([0, 0, 2, 10]), now])
+                p = rng.choice(prios) if rng.random() < 0.85 else rng.choice([rng.randint(0, 0xffff), 0x7fff, 0x8000, 255, 256, 257])
+                if everadded and rng.random() < 0.12:           # the very match object of an earlier entry again (aliasing)
+                    j = rng.choice(everadded); r = allrecs[j]
+                    ops.append(["add", nid, p, "@%d" % j, rng.choice([0, 0, 1, 5]), rng.choice([0, 0, 2, 10]), now])
+                else:
+                    r = flow()
+                    ops.append(["add", nid, p, pack_rec(r).hex(), rng.choice([0, 0, 1, 5]), rng.choice([0, 0, 2, 10]), now])
+                allrecs[nid] = r
                 installed[nid] = (p, r); everadded.append(nid); nid += 1
             elif x < 0.58:
                 i = rng.choice(sorted(installed)) if rng.random() < 0.8 else rng.choice(everadded)   # sometimes an object that has left the table
